@@ -592,6 +592,20 @@ INTERPOSER = r"""
 #include <unistd.h>
 #include <signal.h>
 #include <sys/uio.h>
+#include <semaphore.h>
+#include <sys/stat.h>
+/* mfront serialises its runs with ONE named semaphore per user (/mfront-<euid>): a killed run would leave it
+   locked and block every other mfront of this user on the machine. The runs of this check use a private name. */
+sem_t* sem_open(const char* name, int oflag, ...) {
+  static sem_t* (*real)(const char*, int, ...) = 0;
+  if (!real) real = dlsym(RTLD_NEXT, "sem_open");
+  mode_t m = 0; unsigned v = 0;
+  if (oflag & O_CREAT) { va_list a; va_start(a, oflag); m = va_arg(a, mode_t); v = va_arg(a, unsigned); va_end(a); }
+  const char* sfx = getenv("C47_SEM_SUFFIX");
+  char buf[512];
+  snprintf(buf, sizeof(buf), "%s%s", name, sfx ? sfx : "-c47");
+  return real(buf, oflag, m, v);
+}
 static int watched[1024];
 static int count = 0;
 static int ends(const char* p) { size_t n = strlen(p); return n >= 11 && strcmp(p + n - 11, "targets.lst") == 0; }
@@ -682,18 +696,25 @@ def mfront_stage(ck, rng, report, stats):
             libdirs.add(root)
     env = dict(os.environ)
     env["LD_LIBRARY_PATH"] = ":".join(sorted(libdirs)) + ":" + env.get("LD_LIBRARY_PATH", "")
-    interfaces = ["c", "c++", "python", "excel", "fortran"]
+    interfaces = ["c", "c++", "excel", "fortran"]
+    suffix = "-c47-%d" % os.getpid()
+    semfile = "/dev/shm/sem.mfront-%d%s" % (os.geteuid(), suffix)
 
-    def run_mfront(wd, law, itf, kill_at=None):
+    def run_mfront(wd, law, itf, kill_at=None, timeout=300):
+        """(completed process or None when the run blocks, number of watched system calls)"""
         e = dict(env)
         e["LD_PRELOAD"] = lib
+        e["C47_SEM_SUFFIX"] = suffix
         e["C47_LOG"] = os.path.join(wd, "syscalls.log")
         if os.path.exists(e["C47_LOG"]):
             os.remove(e["C47_LOG"])
         if kill_at is not None:
             e["C47_KILL_AT"] = str(kill_at)
-        q = subprocess.run([mfront, "--interface=" + itf, law + ".mfront"], cwd=wd, env=e, stdout=subprocess.PIPE,
-                           stderr=subprocess.PIPE, text=True, timeout=300)
+        try:
+            q = subprocess.run([mfront, "--interface=" + itf, law + ".mfront"], cwd=wd, env=e,
+                               stdout=subprocess.PIPE, stderr=subprocess.PIPE, text=True, timeout=timeout)
+        except subprocess.TimeoutExpired:
+            q = None
         n = 0
         if os.path.exists(e["C47_LOG"]):
             n = len(open(e["C47_LOG"]).read().splitlines())
@@ -727,7 +748,13 @@ def mfront_stage(ck, rng, report, stats):
             q, n = run_mfront(probe, law, itf)
             out["runs"] += 1
             out["syscalls_per_update"][str(n)] = out["syscalls_per_update"].get(str(n), 0) + 1
-            if q.returncode != 0:
+            if q is None or q.returncode != 0:
+                if q is None:
+                    ck.notes.append("an uninterrupted mfront run blocked (lock?): binary stage stopped")
+                    if os.path.exists(semfile):
+                        os.remove(semfile)
+                    shutil.rmtree(probe, ignore_errors=True)
+                    return out
                 report(SITE_RUN + ":mfront-fails", "mfront fails on a generated material law: %s" % q.stderr[-300:],
                        {"stderr": q.stderr[-1500:], "law": law, "interface": itf}, False)
                 shutil.rmtree(probe, ignore_errors=True)
@@ -739,11 +766,18 @@ def mfront_stage(ck, rng, report, stats):
                 qk, _ = run_mfront(trial, law, itf, kill_at=k)
                 out["crash_points"] += 1
                 text, _ = libs_of(trial)
-                # a later successful run
+                # a later run: the killed process died holding mfront's named semaphore
                 law2 = laws[(i + 1) % len(laws)]
-                e2 = dict(env)
-                q2 = subprocess.run([mfront, "--interface=" + itf, law2 + ".mfront"], cwd=trial, env=e2,
-                                    stdout=subprocess.PIPE, stderr=subprocess.PIPE, text=True, timeout=300)
+                q2, _ = run_mfront(trial, law2, itf, timeout=20)
+                if q2 is None:
+                    out["later_run_blocked_on_the_lock"] = out.get("later_run_blocked_on_the_lock", 0) + 1
+                    if os.path.exists(semfile):
+                        os.remove(semfile)
+                    q2, _ = run_mfront(trial, law2, itf)
+                    if q2 is None:
+                        out["outcomes"]["later-run-hangs"] = out["outcomes"].get("later-run-hangs", 0) + 1
+                        shutil.rmtree(trial, ignore_errors=True)
+                        continue
                 text2, libs2 = libs_of(trial)
                 reportedlog = "can't read file" in (q2.stdout + q2.stderr)
                 if q2.returncode != 0:
@@ -775,4 +809,6 @@ def mfront_stage(ck, rng, report, stats):
                            sorted(registered - libs), {"before": sorted(registered), "after": sorted(libs)}, True)
                 registered = libs
         shutil.rmtree(wd, ignore_errors=True)
+    if os.path.exists(semfile):
+        os.remove(semfile)
     return out
